@@ -2,7 +2,7 @@
 
 use generic_array::{ArrayLength, GenericArray};
 use harness::engine::{self, Acc, Args, Report};
-use harness::registry::{self, Elem, Tracked};
+use harness::registry::{self, Elem, Tracked, TrackedZst};
 use harness::script::{Hint, ScriptIter};
 use harness::with_lat;
 use proptest::prelude::*;
@@ -37,6 +37,9 @@ pub struct Case {
     /// the source panics in its k-th next() call
     #[serde(default)]
     pub panic_at: Option<u64>,
+    /// zero-sized drop-tracked elements instead of the 24-byte ones
+    #[serde(default)]
+    pub zst: bool,
 }
 
 enum Res<N: ArrayLength> {
@@ -47,17 +50,17 @@ enum Res<N: ArrayLength> {
     Ph(std::marker::PhantomData<N>),
 }
 
-fn call<N: ArrayLength, I: Iterator<Item = Tracked>>(target: u8, it: I) -> Res<N> {
-    let read = |s: &[Tracked]| (s.iter().map(|x| x.get()).collect::<Vec<u32>>(), s.iter().map(|x| x.id_unchecked()).collect::<Vec<u32>>());
+fn call<T: Elem, N: ArrayLength, I: Iterator<Item = T>>(target: u8, it: I) -> Res<N> {
+    let read = |s: &[T]| (s.iter().map(|x| x.get()).collect::<Vec<u32>>(), s.iter().filter_map(|x| x.ident()).collect::<Vec<u32>>());
     match target {
-        0 => match GenericArray::<Tracked, N>::try_from_iter(it) {
+        0 => match GenericArray::<T, N>::try_from_iter(it) {
             Ok(a) => {
                 let (v, i) = read(&a);
                 Res::Ok(v, i)
             }
             Err(_) => Res::Err,
         },
-        1 => match engine::catch(|| it.collect::<GenericArray<Tracked, N>>()) {
+        1 => match engine::catch(|| it.collect::<GenericArray<T, N>>()) {
             Ok(a) => {
                 let (v, i) = read(&a);
                 Res::Ok(v, i)
@@ -65,14 +68,14 @@ fn call<N: ArrayLength, I: Iterator<Item = Tracked>>(target: u8, it: I) -> Res<N
             Err(c) if c.injected => std::panic::panic_any(registry::Injected("propagated")),
             Err(c) => Res::Panic(c.msg),
         },
-        2 => match GenericArray::<Tracked, N>::try_boxed_from_iter(it) {
+        2 => match GenericArray::<T, N>::try_boxed_from_iter(it) {
             Ok(a) => {
                 let (v, i) = read(&a);
                 Res::Ok(v, i)
             }
             Err(_) => Res::Err,
         },
-        _ => match engine::catch(|| it.collect::<Box<GenericArray<Tracked, N>>>()) {
+        _ => match engine::catch(|| it.collect::<Box<GenericArray<T, N>>>()) {
             Ok(a) => {
                 let (v, i) = read(&a);
                 Res::Ok(v, i)
@@ -83,30 +86,30 @@ fn call<N: ArrayLength, I: Iterator<Item = Tracked>>(target: u8, it: I) -> Res<N
     }
 }
 
-fn exec_typed<N: ArrayLength>(case: &Case, acc: &mut Acc) -> Result<(), String> {
+fn exec_typed<T: Elem, N: ArrayLength>(case: &Case, acc: &mut Acc) -> Result<(), String> {
     registry::reset();
     let n = N::USIZE;
     let c = case.c;
-    let want: Vec<u32> = (0..c as u32).map(|i| case.base + i).collect();
-    let mk = |i: usize| Tracked::mk(case.base + i as u32);
+    let want: Vec<u32> = (0..c as u32).map(|i| T::norm(case.base + i)).collect();
+    let mk = |i: usize| T::mk(case.base + i as u32);
     let mut truthful = true;
     let mut rules_out = false;
     let mut probe = None;
     let mut leftover_in_source = 0usize;
-    let mut keep_source: Option<ScriptIter<Tracked>> = None;
+    let mut keep_source: Option<ScriptIter<T>> = None;
     let res: Res<N> = match case.source {
         Source::Script(hint, after) => {
             truthful = hint.truthful(c) && after == 0;
             rules_out = hint.rules_out(c, n);
-            let items: Vec<Tracked> = (0..c).map(mk).collect();
-            let extra: Vec<Tracked> = (0..after).map(|i| Tracked::mk(900_000 + i as u32)).collect();
+            let items: Vec<T> = (0..c).map(mk).collect();
+            let extra: Vec<T> = (0..after).map(|i| T::mk(900_000 + i as u32)).collect();
             let (mut src, p) = ScriptIter::new(items, extra, hint, case.panic_at.is_some());
             probe = Some(p);
             if let Some(k) = case.panic_at {
                 // fault: the source panics in its k-th next(); the panic must propagate and nothing may be lost
                 registry::panic_at_call(k);
                 let target = case.target;
-                let r = engine::catch(move || drop(call::<N, _>(target, src)));
+                let r = engine::catch(move || drop(call::<T, N, _>(target, src)));
                 let fired = registry::call_panic_fired();
                 registry::clear_call_panic();
                 match r {
@@ -123,26 +126,26 @@ fn exec_typed<N: ArrayLength>(case: &Case, acc: &mut Acc) -> Result<(), String> 
                 return Ok(());
             }
             let r = if case.by_ref {
-                let r = call::<N, _>(case.target, &mut src);
+                let r = call::<T, N, _>(case.target, &mut src);
                 // un-pulled items are still owned by the source and live
                 leftover_in_source = src.remaining_all();
                 keep_source = Some(src);
                 r
             } else {
-                call::<N, _>(case.target, src)
+                call::<T, N, _>(case.target, src)
             };
             r
         }
-        Source::Range => call::<N, _>(case.target, (0..c).map(mk)),
-        Source::VecIntoIter => call::<N, _>(case.target, (0..c).map(mk).collect::<Vec<_>>().into_iter()),
+        Source::Range => call::<T, N, _>(case.target, (0..c).map(mk)),
+        Source::VecIntoIter => call::<T, N, _>(case.target, (0..c).map(mk).collect::<Vec<_>>().into_iter()),
         Source::Chain => {
             let h = c / 2;
-            let a: Vec<Tracked> = (0..h).map(mk).collect();
-            let b: Vec<Tracked> = (h..c).map(mk).collect();
-            call::<N, _>(case.target, a.into_iter().chain(b))
+            let a: Vec<T> = (0..h).map(mk).collect();
+            let b: Vec<T> = (h..c).map(mk).collect();
+            call::<T, N, _>(case.target, a.into_iter().chain(b))
         }
-        Source::TakeOfLonger => call::<N, _>(case.target, (0..c + 5).map(mk).take(c)),
-        Source::Filter => call::<N, _>(case.target, (0..c).map(mk).filter(|_| true)),
+        Source::TakeOfLonger => call::<T, N, _>(case.target, (0..c + 5).map(mk).take(c)),
+        Source::Filter => call::<T, N, _>(case.target, (0..c).map(mk).filter(|_| true)),
     };
     let is_panicking_target = case.target == 1 || case.target == 3;
     let outcome = match &res {
@@ -188,7 +191,7 @@ fn exec_typed<N: ArrayLength>(case: &Case, acc: &mut Acc) -> Result<(), String> 
         if !matches!(res, Res::Ok(..)) {
             // every item pulled has been dropped exactly once by now; un-pulled ones are untouched
             let pulled = p.yielded.get();
-            let live_now = registry::live();
+            let live_now = if T::KIND == "tracked_zst" { let (cr, dr) = registry::zst_counts(); (cr - dr) as usize } else { registry::live() };
             let expect_live = if case.by_ref { leftover_in_source } else { 0 };
             if live_now != expect_live {
                 return Err(format!(
@@ -209,7 +212,11 @@ fn exec_typed<N: ArrayLength>(case: &Case, acc: &mut Acc) -> Result<(), String> 
 }
 
 pub fn exec(case: &Case, acc: &mut Acc) -> Result<(), String> {
-    with_lat!(case.n, N, exec_typed::<N>(case, acc))
+    if case.zst {
+        with_lat!(case.n, N, exec_typed::<TrackedZst, N>(case, acc))
+    } else {
+        with_lat!(case.n, N, exec_typed::<Tracked, N>(case, acc))
+    }
 }
 
 fn counts_for(n: usize) -> Vec<usize> {
@@ -241,10 +248,14 @@ fn grid() -> Vec<Case> {
                         if n > 257 && (target >= 2 || by_ref) && c > 1 && c != n {
                             continue;
                         }
-                        out.push(Case { n, c, source, target, by_ref, base: 1000, panic_at: None });
+                        out.push(Case { n, c, source, target, by_ref, base: 1000, panic_at: None, zst: false });
+                        if n <= 33 || c == n {
+                            out.push(Case { n, c, source, target, by_ref, base: 1000, panic_at: None, zst: true });
+                        }
                         if n <= 12 && !by_ref && matches!(source, Source::Script(Hint::Exact | Hint::Unknown, 0)) {
                             for k in 0..=(c.min(n + 1) as u64) {
-                                out.push(Case { n, c, source, target, by_ref, base: 1000, panic_at: Some(k) });
+                                out.push(Case { n, c, source, target, by_ref, base: 1000, panic_at: Some(k), zst: false });
+                                out.push(Case { n, c, source, target, by_ref, base: 1000, panic_at: Some(k), zst: true });
                             }
                         }
                     }
@@ -273,7 +284,7 @@ fn random_strategy() -> impl Strategy<Value = Case> {
             6 => Hint::LieHigh,
             _ => Hint::Fixed((n + fx).saturating_sub(2)),
         };
-        Case { n, c, source: Source::Script(hint, after), target, by_ref, base, panic_at: None }
+        Case { n, c, source: Source::Script(hint, after), target, by_ref, base, panic_at: None, zst: base % 5 == 0 }
     })
 }
 
@@ -306,7 +317,7 @@ pub fn main() {
         Report {
             prop: PROP,
             level: "exploration",
-            rule: "case = (N in the 34-length lattice, produced count c (every 0..=N+3 for N<=12, else 0,1,N-1,N,N+1,N+3), source, target, by-value or &mut). Sources: a scripted iterator with 10 size_hint behaviours (exact, lower 0, no upper, unknown, loose, lying low, lying high, claiming exactly N / N+1 / N-1 whatever it holds), fused or yielding again after its first None, and std sources (Range, vec::IntoIter, Chain, Take, Filter) that reach the TrustedLen specialisations. Targets: try_from_iter, from_iter/collect, try_boxed_from_iter, boxed collect. For N<=12 additionally a panic injected into every next() call index of the scripted source. Grid enumerated completely, plus proptest-random cases. \
+            rule: "case = (N in the 36-length lattice (to 4096), 24-byte or zero-sized drop-tracked elements, produced count c (every 0..=N+3 for N<=12, else 0,1,N-1,N,N+1,N+3), source, target, by-value or &mut). Sources: a scripted iterator with 10 size_hint behaviours (exact, lower 0, no upper, unknown, loose, lying low, lying high, claiming exactly N / N+1 / N-1 whatever it holds), fused or yielding again after its first None, and std sources (Range, vec::IntoIter, Chain, Take, Filter) that reach the TrustedLen specialisations. Targets: try_from_iter, from_iter/collect, try_boxed_from_iter, boxed collect. For N<=12 additionally a panic injected into every next() call index of the scripted source. Grid enumerated completely, plus proptest-random cases. \
                    Oracle computed from the script alone: Ok => c = N and element i is the i-th item; truthful and c = N => Ok; c != N or a hint that rules N out => LengthError / 'expected N items' panic; at most N+1 items pulled; never polled after None; every pulled item dropped exactly once on failure and un-pulled items still with the source. \
                    non-trivial = c != N, or an untruthful / inexact hint, or a non-fused source; distinct = distinct case tuples",
             exhaustive: false,
